@@ -244,6 +244,33 @@ fn optimizer_vs_consensus(prog: &[u8], envsel: u8) -> Option<Value> {
         _ => None,
     }
 }
+// the cl23+ path shortening on hand-written CLVM: (f / r chains over a number) keeps its value also when the number is
+// zero or negative (its bytes then spell a large unsigned path, or nil)
+fn brief_vs_consensus(text: &str, envsel: u8) -> Option<Value> {
+    use chialisp::classic::clvm_tools::stages::stage_0::{DefaultProgramRunner, TRunProgram};
+    use chialisp::compiler::clvm::convert_to_clvm_rs;
+    use chialisp::compiler::optimize::brief::brief_path_selection;
+    use chialisp::compiler::sexp::parse_sexp;
+    use chialisp::compiler::srcloc::Srcloc;
+    let t = text.to_string();
+    let res = catch_unwind(move || {
+        let mut a = clvmr::Allocator::new();
+        let parsed = parse_sexp(Srcloc::start("*replay*"), t.bytes()).ok().and_then(|v| v.first().cloned())?;
+        let (_, shortened) = brief_path_selection(parsed.clone());
+        let (p, q) = (convert_to_clvm_rs(&mut a, parsed).ok()?, convert_to_clvm_rs(&mut a, shortened.clone()).ok()?);
+        let mut tag = 0u8;
+        let env = match envsel { 0 => build_tree(&mut a, 9, &mut tag), 1 => comb(&mut a, 20, true), _ => comb(&mut a, 20, false) };
+        let runner = DefaultProgramRunner::new();
+        let orig = runner.run_program(&mut a, p, env, None).ok().and_then(|r| clvmr::serde::node_to_bytes(&a, r.1).ok())?;
+        let after = runner.run_program(&mut a, q, env, None).ok().and_then(|r| clvmr::serde::node_to_bytes(&a, r.1).ok());
+        if after.as_ref() != Some(&orig) { Some((orig, after, shortened.to_string())) } else { None }
+    });
+    match res {
+        Ok(Some((o, a, sh))) => Some(hit(json!({"modern_clvm": text, "env": envsel}), format!("value of R in E: {:?}", o), format!("brief_path_selection gives {} with value {:?}", sh, a), "brief_path_selection then clvmr run_program vs clvmr run_program of the original")),
+        Err(_) => Some(hit(json!({"modern_clvm": text}), "no panic".into(), "panic".into(), "brief_path_selection panicked")),
+        _ => None,
+    }
+}
 // insert (include DIALECT) right after the mod's argument list
 fn with_dialect(body: &str, d: &str) -> String {
     let start = body.find("(mod ").map(|i| i + 5).unwrap_or(0);
@@ -275,6 +302,13 @@ fn optimizer_programs() -> Vec<Vec<u8>> {
         // (a (q . P) (c 1 1))  -- exercises sub_args / path_from_args
         let mut x = hexv("ff02ffff01"); x.extend(p); x.extend(hexv("ffff04ff01ff018080")); v.push(x);
     }
+    // (a (q . (c P1 P2)) N): re-rooting quoted code at an environment path N (seed C04-d composed the paths the wrong way round)
+    for p1 in 2u8..8 { for p2 in 2u8..8 { for n in [2u8, 3, 5, 6, 7] {
+        v.push(vec![0xff, 0x02, 0xff, 0xff, 0x01, 0xff, 0x04, 0xff, p1, 0xff, p2, 0x80, 0xff, n, 0x80]);
+    } } }
+    // an operator given as a one-element list applies to its operands as they are (finding F47: the optimisers read them as code)
+    for t in ["((+) 2 3)", "(a (q . ((+) 2 3)) (c 5 7))", "(c ((concat) 2 3) 1)"] { if let Some(b) = asm_bytes(t) { v.push(b); } }
+    for t in ["(a (q . (c 4 6)) (c 5 ()))", "(a (q . (c 2 5)) (c 7 (c 5 ())))", "(a (q . (f 5)) 3)", "(a (q . (r 6)) 5)"] { if let Some(b) = asm_bytes(t) { v.push(b); } }
     for hex in ["ff02ffff0180ffff04ff01ff018080", "ff02ffff0100ffff04ff01ff018080", "ff0101", "ff04ffff0101ffff010280", "ff02ffff01ff05ff0280ffff04ff01ff018080", "ff05ffff04ff02ff038080", "ff06ffff04ff02ff038080"] { v.push(hexv(hex)); }
     v
 }
@@ -871,6 +905,43 @@ fn chk_entry_points_inc(src: &str, optimize: bool, includes: &[String]) -> Optio
     }
 }
 
+// a program given as a FILE inside a directory that also holds a same-named support file: library entry (text + file name)
+// and tool path (file name) must resolve the include through the search path alone, identically
+fn chk_entry_points_file(file: &str, includes: &[String]) -> Option<Value> {
+    use chialisp::classic::clvm_tools::clvmc::compile_clvm_text_maybe_opt;
+    use chialisp::classic::clvm_tools::comp_input::RunAndCompileInputData;
+    use chialisp::classic::platform::argparse::ArgumentValue;
+    use chialisp::compiler::clvm::convert_to_clvm_rs;
+    use chialisp::compiler::compiler::DefaultCompilerOpts;
+    use chialisp::compiler::comptypes::CompilerOpts;
+    use std::collections::HashMap;
+    use std::rc::Rc;
+    let f = file.to_string();
+    let incs: Vec<String> = includes.to_vec();
+    let res = catch_unwind(move || {
+        let text = std::fs::read_to_string(&f).unwrap_or_default();
+        let mut a = clvmr::Allocator::new();
+        let opts: Rc<dyn CompilerOpts> = Rc::new(DefaultCompilerOpts::new(&f));
+        let opts = opts.set_search_paths(&incs);
+        let mut syms = HashMap::new();
+        let lib = compile_clvm_text_maybe_opt(&mut a, true, opts, &mut syms, &text, &f, false).map_err(|e| format!("{:?}", e))
+            .and_then(|n| clvmr::serde::node_to_bytes(&a, n).map_err(|e| format!("{:?}", e)));
+        let mut args: HashMap<String, ArgumentValue> = HashMap::new();
+        // what the command line's argument parser hands over for a file name: (Some(path), the file's text)
+        args.insert("path_or_code".to_string(), ArgumentValue::ArgString(Some(f.clone()), text.clone()));
+        args.insert("optimize".to_string(), ArgumentValue::ArgBool(true));
+        if !incs.is_empty() { args.insert("include".to_string(), ArgumentValue::ArgArray(incs.iter().map(|i| ArgumentValue::ArgString(None, i.clone())).collect())); }
+        let tool = RunAndCompileInputData::new(&mut a, &args).map_err(|e| format!("{:?}", e)).and_then(|d| { let mut s2 = HashMap::new(); d.compile_modern(&mut a, &mut s2).map_err(|e| format!("{:?}", e)) })
+            .and_then(|x| convert_to_clvm_rs(&mut a, x).map_err(|e| format!("{:?}", e))).and_then(|n| clvmr::serde::node_to_bytes(&a, n).map_err(|e| format!("{:?}", e)));
+        (lib, tool)
+    });
+    match res {
+        Ok((l, t)) if l.as_ref().ok() != t.as_ref().ok() || l.is_ok() != t.is_ok() => Some(hit(json!({"file_layout": "proj/prog.clsp + proj/kk.clib, search path as listed", "include": includes.len()}), format!("library entry: {:?}", l), format!("tool path: {:?}", t), "compile_clvm_text_maybe_opt(text, file name) vs RunAndCompileInputData::compile_modern(file name)")),
+        Err(_) => Some(hit(json!({"file": file}), "no panic".into(), "panic".into(), "entry point panicked")),
+        _ => None,
+    }
+}
+
 // ---- C13: symbol table entries describe the emitted program
 fn chk_symbols(source: &str, functions: &[(&str, &str)], complete: bool) -> Option<Value> {
     use chialisp::classic::clvm_tools::stages::stage_0::DefaultProgramRunner;
@@ -1038,6 +1109,95 @@ fn compile_and_run(src: &str, optimize: bool, args_text: &str) -> Result<Option<
     let args = assemble(&mut a, args_text).map_err(|e| format!("{:?}", e))?;
     let runner = DefaultProgramRunner::new();
     Ok(runner.run_program(&mut a, prog, args, None).ok().and_then(|r| clvmr::serde::node_to_bytes(&a, r.1).ok()))
+}
+// ---- C02 (generated sweep): well-scoped programs over integers and small lists, built from a seeded generator
+// (functions and inline functions with plain and destructured parameters, let / let* / assign, if, arithmetic,
+// comparisons, list building and taking apart, repeated subexpressions as CSE candidates); every build that
+// returns must return the same value, and no build may fail to compile where another compiles
+struct Gen { x: u64, fresh: u32, pool: Vec<String> }
+impl Gen {
+    fn new(seed: u64) -> Gen { Gen { x: seed.wrapping_mul(0x9E3779B97F4A7C15) | 1, fresh: 0, pool: vec![] } }
+    fn next(&mut self) -> u64 { self.x ^= self.x << 13; self.x ^= self.x >> 7; self.x ^= self.x << 17; self.x }
+    fn pick(&mut self, n: usize) -> usize { (self.next() % (n as u64)) as usize }
+    fn name(&mut self, stem: &str) -> String { self.fresh += 1; format!("{}{}", stem, self.fresh) }
+    // an integer-valued expression
+    fn int(&mut self, depth: usize, vars: &[String], funs: &[(String, usize, bool)]) -> String {
+        if depth == 0 || self.pick(6) == 0 {
+            return if !vars.is_empty() && self.pick(4) != 0 { vars[self.pick(vars.len())].clone() } else { format!("{}", 1 + self.pick(9)) };
+        }
+        if !self.pool.is_empty() && self.pick(5) == 0 { let k = self.pick(self.pool.len()); let e = self.pool[k].clone(); if e.split(|c: char| c == ' ' || c == '(' || c == ')').filter(|t| t.starts_with("v_")).all(|t| vars.iter().any(|v| v == t)) { return e; } }
+        let e = match self.pick(13) {
+            0 | 1 => format!("(+ {} {})", self.int(depth - 1, vars, funs), self.int(depth - 1, vars, funs)),
+            2 => format!("(- {} {})", self.int(depth - 1, vars, funs), self.int(depth - 1, vars, funs)),
+            3 => format!("(* {} {})", self.int(depth - 1, vars, funs), self.int(depth - 1, vars, funs)),
+            4 => format!("(if {} {} {})", self.cond(depth - 1, vars, funs), self.int(depth - 1, vars, funs), self.int(depth - 1, vars, funs)),
+            5 => { let (a, b) = (self.name("v_l"), self.name("v_l")); let (ea, eb) = (self.int(depth - 1, vars, funs), self.int(depth - 1, vars, funs)); let mut v2 = vars.to_vec(); v2.push(a.clone()); v2.push(b.clone()); format!("(let (({} {}) ({} {})) {})", a, ea, b, eb, self.int(depth - 1, &v2, funs)) }
+            6 => { let (a, b) = (self.name("v_s"), self.name("v_s")); let ea = self.int(depth - 1, vars, funs); let mut v1 = vars.to_vec(); v1.push(a.clone()); let eb = self.int(depth - 1, &v1, funs); v1.push(b.clone()); format!("(let* (({} {}) ({} {})) {})", a, ea, b, eb, self.int(depth - 1, &v1, funs)) }
+            7 => { let (a, b) = (self.name("v_a"), self.name("v_a")); let ea = self.int(depth - 1, vars, funs); let mut v1 = vars.to_vec(); v1.push(a.clone()); let eb = self.int(depth - 1, &v1, funs); v1.push(b.clone()); format!("(assign {} {} {} {} {})", a, ea, b, eb, self.int(depth - 1, &v1, funs)) }
+            8 => { let (a, b) = (self.name("v_d"), self.name("v_d")); let l = self.pair(depth - 1, vars, funs); let mut v1 = vars.to_vec(); v1.push(a.clone()); v1.push(b.clone()); format!("(assign ({} . {}) {} {})", a, b, l, self.int(depth - 1, &v1, funs)) }
+            9 | 10 if !funs.is_empty() => { let (f, n, pairarg) = funs[self.pick(funs.len())].clone(); let mut parts = vec![]; for i in 0..n { if pairarg && i == 0 { parts.push(self.pair(depth - 1, vars, funs)); } else { parts.push(self.int(depth - 1, vars, funs)); } } format!("({} {})", f, parts.join(" ")) }
+            11 => format!("(f {})", self.pair(depth - 1, vars, funs)),
+            _ => format!("(r {})", self.pair(depth - 1, vars, funs)),
+        };
+        if e.len() < 60 && self.pick(3) == 0 { self.pool.push(e.clone()); }
+        e
+    }
+    // a pair of two integers
+    fn pair(&mut self, depth: usize, vars: &[String], funs: &[(String, usize, bool)]) -> String {
+        let (a, b) = (self.int(depth, vars, funs), self.int(depth, vars, funs));
+        if self.pick(2) == 0 { format!("(c {} {})", a, b) } else { format!("(if {} (c {} {}) (c {} {}))", self.cond(depth, vars, funs), a, b, b, a) }
+    }
+    fn cond(&mut self, depth: usize, vars: &[String], funs: &[(String, usize, bool)]) -> String {
+        match self.pick(5) {
+            0 => format!("(= {} {})", self.int(depth, vars, funs), self.int(depth, vars, funs)),
+            1 => format!("(> {} {})", self.int(depth, vars, funs), self.int(depth, vars, funs)),
+            2 => format!("(not {})", self.int(depth, vars, funs)),
+            3 => format!("(l {})", self.pair(depth, vars, funs)),
+            _ => self.int(depth, vars, funs),
+        }
+    }
+    fn program(&mut self) -> String {
+        self.pool.clear();
+        let params: Vec<String> = vec!["v_x".into(), "v_y".into(), "v_z".into()];
+        let mut funs: Vec<(String, usize, bool)> = vec![];
+        let mut defs = vec![];
+        for k in 0..(1 + self.pick(3)) {
+            let fname = format!("fn_{}", k);
+            let n = 1 + self.pick(3);
+            let pairarg = self.pick(3) == 0;
+            let mut pnames = vec![]; let mut ptext = vec![];
+            for i in 0..n { if pairarg && i == 0 { let (a, b) = (self.name("v_p"), self.name("v_p")); ptext.push(format!("({} . {})", a, b)); pnames.push(a); pnames.push(b); } else { let a = self.name("v_p"); ptext.push(a.clone()); pnames.push(a); } }
+            let kw = if self.pick(3) == 0 { "defun-inline" } else { "defun" };
+            self.pool.clear();
+            let body = self.int(3, &pnames, &funs);
+            defs.push(format!("({} {} ({}) {})", kw, fname, ptext.join(" "), body));
+            funs.push((fname, n, pairarg));
+        }
+        self.pool.clear();
+        let main = self.int(3, &params, &funs);
+        format!("(mod (v_x v_y v_z) {} {})", defs.join(" "), main)
+    }
+}
+fn chk_generated_builds(body: &str, args_text: &str) -> Option<Value> {
+    let b = body.to_string(); let at = args_text.to_string();
+    let res = catch_unwind(move || {
+        let mut results: Vec<(String, Result<Option<Vec<u8>>, String>)> = vec![];
+        for (d, o) in [("*standard-cl-21*", false), ("*standard-cl-21*", true), ("*strict-cl-21*", false), ("*standard-cl-23*", false), ("*standard-cl-23.1*", false), ("*standard-cl-24*", false)] {
+            results.push((format!("{} -O={}", d, o), compile_and_run(&with_dialect(&b, d), o, &at)));
+        }
+        let compiled = results.iter().filter(|r| r.1.is_ok()).count();
+        if compiled != 0 && compiled != results.len() { let bad: Vec<String> = results.iter().filter_map(|r| r.1.as_ref().err().map(|e| format!("{}: {}", r.0, &e[..e.len().min(160)]))).collect(); return Some(format!("some builds compile, these do not: {:?}", bad)); }
+        let vals: Vec<(&String, &Vec<u8>)> = results.iter().filter_map(|r| match &r.1 { Ok(Some(v)) => Some((&r.0, v)), _ => None }).collect();
+        for w in vals.windows(2) { if w[0].1 != w[1].1 { return Some(format!("{} -> {:?} but {} -> {:?}", w[0].0, w[0].1, w[1].0, w[1].1)); } }
+        // integer programs with guarded list access do not fail at run time in the source's meaning: a build that fails beside one that returns is reported too
+        if !vals.is_empty() && vals.len() != results.len() { let bad: Vec<&String> = results.iter().filter(|r| matches!(r.1, Ok(None))).map(|r| &r.0).collect(); return Some(format!("some builds return a value, these fail at run time: {:?}", bad)); }
+        None
+    });
+    match res {
+        Ok(Some(o)) => Some(hit(json!({"program": body, "args": args_text}), "all builds compile, and all that return a value return the same value".into(), o, "generated program: compile_clvm_text_maybe_opt x {cl21, cl21 -O, strict-cl21, cl23, cl23.1, cl24}, run with clvmr")),
+        Err(_) => Some(hit(json!({"program": body}), "no panic".into(), "panic".into(), "compile or run panicked")),
+        _ => None,
+    }
 }
 fn chk_opt_levels(body: &str, args_text: &str) -> Option<Value> {
     let b = body.to_string(); let at = args_text.to_string();
@@ -1230,7 +1390,8 @@ pub fn compile_child(src: &str) -> i32 {
     let s = src.to_string();
     match catch_unwind(move || compile_only(&s)) { Ok(Ok(())) => 0, Ok(Err(e)) => { println!("{}", e); 1 }, Err(_) => 3 }
 }
-fn compile_in_child(src: &str) -> Result<(), String> {
+fn compile_in_child(src: &str) -> Result<(), String> { compile_in_child_limit(src, 120) }
+fn compile_in_child_limit(src: &str, limit_secs: u64) -> Result<(), String> {
     use std::io::Read;
     let exe = std::env::current_exe().map_err(|e| format!("<no exe {}>", e))?;
     let mut child = std::process::Command::new(exe).args(["child_compile", src]).stdout(std::process::Stdio::piped()).stderr(std::process::Stdio::null()).spawn().map_err(|e| format!("<spawn {}>", e))?;
@@ -1242,7 +1403,7 @@ fn compile_in_child(src: &str) -> Result<(), String> {
                 if let Some(mut o) = child.stdout.take() { let _ = o.read_to_string(&mut out); }
                 return match st.code() { Some(0) => Ok(()), Some(1) => Err(out), Some(3) => Err("<killed: the compiler panicked>".to_string()), Some(c) => Err(format!("<killed: exit code {}>", c)), None => Err("<killed: the compiler process died on a signal (stack overflow)>".to_string()) };
             }
-            Ok(None) => { if t0.elapsed().as_secs() > 120 { let _ = child.kill(); let _ = child.wait(); return Err("<killed: the compiler did not return within 120 s>".to_string()); } std::thread::sleep(std::time::Duration::from_millis(20)); }
+            Ok(None) => { if t0.elapsed().as_secs() > limit_secs { let _ = child.kill(); let _ = child.wait(); return Err(format!("<killed: the compiler did not return within {} s>", limit_secs)); } std::thread::sleep(std::time::Duration::from_millis(20)); }
             Err(e) => return Err(format!("<wait {}>", e)),
         }
     }
@@ -1518,6 +1679,9 @@ fn determinism_programs() -> Vec<String> {
         }
     }
     for (b, _, _) in meaning_cases() { for d in ["*standard-cl-21*", "*standard-cl-22*", "*standard-cl-23*"] { v.push(with_dialect(b, d)); } }
+    // nested assign forms with many de-inlining choices of nearly equal size (from the generator of the repository's cse_regression test)
+    v.push(with_dialect("(mod (a1) (defun defined-fun (a1) (assign v3 (assign v1 (17 a1 (18 (17 (16 (17 a1 (q . -76)) (q . -99)) a1) a1)) (16 v1 (17 (17 (17 (17 a1 (18 (q . 77) (18 (17 v1 v1) a1))) (q . -111)) (q . -103)) v1))) v5 (assign v0 (18 (q . -114) (16 (18 (18 a1 (18 (18 (q . -60) a1) a1)) a1) a1)) v4 (18 v0 (16 v0 a1)) (18 (18 v0 (17 (16 (q . 53) (18 (q . 115) (16 (q . -124) (17 v4 (17 (q . 103) (17 v4 (q . 103))))))) v4)) a1)) v6 (assign v2 (16 (q . -42) (18 (q . -77) (17 (17 a1 a1) a1))) (18 (16 (17 (q . 26) (18 a1 (18 (q . -95) (q . 50)))) v2) v3)) v6)) (defined-fun a1))", "*standard-cl-23*"));
+    v.push(with_dialect("(mod (a1) (defun defined-fun (a1) (assign v0 (17 a1 (16 a1 (18 (17 (17 (q . -25) (17 (18 (q . 59) (16 (q . -34) (q . 36))) a1)) a1) a1))) v2 (assign v3 (16 (q . 51) a1) (16 (16 (18 (18 v3 (17 (q . 110) (16 v3 (17 (16 (q . 124) (q . 44)) a1)))) (q . -121)) a1) (q . -21))) v4 (17 v2 (16 (q . -31) (18 v2 (q . -25)))) v5 (17 a1 (16 (17 (17 v0 (18 (17 (q . 110) (17 (18 (q . -34) (q . 95)) v2)) v2)) a1) (q . 83))) v6 (assign v1 (17 (17 (18 (18 (q . 50) (17 a1 a1)) (q . 20)) a1) (q . 42)) (16 (16 (18 v5 (17 v5 v4)) v1) (q . -75))) v6)) (defined-fun a1))", "*standard-cl-23*"));
     for d in ["*standard-cl-21*", "*standard-cl-22*", "*standard-cl-23*"] {
         v.push(with_dialect("(mod (A B) (defun G (X) (lambda ((& X) Z) (+ X Z))) (a (G A) (list B)))", d));
         v.push(with_dialect("(mod (X Y) (defun F (M N) (let ((S (+ M N)) (T (* M N))) (list (* S S) (* T T) (+ (* S S) (* T T)) (sha256 (* S S) (* T T))))) (F X Y))", d));
@@ -1538,6 +1702,16 @@ fn chk_determinism() -> Option<Value> {
         let again = catch_unwind({ let p = p.clone(); move || compile_bytes_and_symbols(&p) }).unwrap_or(Err("panic".into()));
         if again.is_err() && first[i].is_err() { continue; }
         if again != first[i] { return Some(hit(json!({"source": p}), format!("first: {}", first[i].as_ref().map(|x| x.0.iter().map(|b| format!("{:02x}", b)).collect::<String>()).unwrap_or_default()), format!("again: {}", again.as_ref().map(|x| x.0.iter().map(|b| format!("{:02x}", b)).collect::<String>()).unwrap_or_default()), "compile_clvm_text twice in one process: bytes or user-visible symbols differ")); }
+    }
+    // the same program several more times in a row: every HashMap / HashSet the compiler makes hashes with fresh keys, so an
+    // output that depends on the walk order of one shows up here (the withdrawn repair d8eda92 made the cl23 de-inliner do that)
+    for (i, p) in progs.iter().enumerate() {
+        if skipped(&json!({"source": p})) || !(p.contains("cl-23") || p.contains("cl-24")) { continue; }
+        for _ in 0..4 {
+            let again = catch_unwind({ let p = p.clone(); move || compile_bytes_and_symbols(&p) }).unwrap_or(Err("panic".into()));
+            if again.is_err() && first[i].is_err() { continue; }
+            if again != first[i] { return Some(hit(json!({"source": p}), format!("first: {:?}", first[i].as_ref().map(|x| x.0.len())), format!("a later compilation of the same text differs: {:?}", again.as_ref().map(|x| x.0.len())), "compile_clvm_text five times in one process")); }
+        }
     }
     // every program on a thread of its own (no per-thread history at all), in reverse order
     for (i, p) in progs.iter().enumerate().rev() {
@@ -1620,9 +1794,19 @@ pub fn search(name: &str, seed: u64) -> Value {
                 ("(mod (X) (include *standard-cl-23*) (defun f (A) (+ A \u{3b1})) (f X))", "Unbound", "(mod (X) (include *standard-cl-23*) (defun f (A) (+ A 1)) (f X))"),
                 ("(mod (X) (include *standard-cl-24*) (+ X \u{fc}nbound))", "nbound", "(mod (X) (include *standard-cl-24*) (+ X 1))"),
                 ("(mod (X) (include *standard-cl-23.1*) (defun f (A) (+ A \u{3b1})) (f X))", "Unbound", "(mod (X) (include *standard-cl-23.1*) (defun f (A) (+ A 1)) (f X))"),
+                // an unbound name in a macro template, in each strict dialect (finding F44: cl23+ emit it as a constant)
+                ("(mod (X) (include *strict-cl-21*) (defmacro M (A) (qq (+ YY (unquote A)))) (M X))", "YY", "(mod (X) (include *strict-cl-21*) (defmacro M (A) (qq (+ 1 (unquote A)))) (M X))"),
+                ("(mod (X) (include *standard-cl-23*) (defmacro M (A) (qq (+ YY (unquote A)))) (M X))", "YY", "(mod (X) (include *standard-cl-23*) (defmacro M (A) (qq (+ 1 (unquote A)))) (M X))"),
+                ("(mod (X) (include *standard-cl-23.1*) (defmacro M (A) (qq (+ YY (unquote A)))) (M X))", "YY", "(mod (X) (include *standard-cl-23.1*) (defmacro M (A) (qq (+ 1 (unquote A)))) (M X))"),
+                ("(mod (X) (include *standard-cl-24*) (defmacro M (A) (qq (+ YY (unquote A)))) (M X))", "YY", "(mod (X) (include *standard-cl-24*) (defmacro M (A) (qq (+ 1 (unquote A)))) (M X))"),
+                ("(mod (X) (include *standard-cl-23*) (defmac M (A) (qq (+ YY (unquote A)))) (M X))", "YY", "(mod (X) (include *standard-cl-23*) (defmac M (A) (qq (+ 1 (unquote A)))) (M X))"),
+                // an inline function whose body names a parameter of the program, not one of its own (finding F45: accepted when called from the main expression)
+                ("(mod (X) (include *standard-cl-23*) (defun-inline F (A) (+ A X)) (F 1))", "X", "(mod (X) (include *standard-cl-23*) (defun-inline F (A) (+ A 1)) (F 1))"),
+                ("(mod (X) (include *strict-cl-21*) (defun-inline F (A) (+ A X)) (F 1))", "X", "(mod (X) (include *strict-cl-21*) (defun-inline F (A) (+ A 1)) (F 1))"),
+                ("(mod (X) (include *standard-cl-23*) (defun-inline F (A) (+ A X)) (defun G (Q) (F Q)) (G 1))", "X", "(mod (X) (include *standard-cl-23*) (defun-inline F (A) (+ A 1)) (defun G (Q) (F Q)) (G 1))"),
             ];
             for (bad, names, good) in more.iter() { if skipped(&json!({"ill_scoped": bad, "repaired": good})) { continue; } if let Some(v) = chk_scope(bad, names, good) { return v; } }
-            nf("17 ill-scoped programs (redefinitions of a reachable function also under cl23 / cl23.1 / cl24), each compiled in a child process (unbound name in main / in defun under a strict dialect, duplicate defun, inline+defun of one name, direct and mutual inline recursion with the back edge in head and in argument position (cycles of 1, 2 and 3), cyclic assign incl. self-reference, duplicate assign binding) are rejected with an error naming the culprit, and each repaired twin compiles")
+            nf("25 ill-scoped programs (unbound names in macro templates under every strict dialect, an inline body naming a parameter of the program) (redefinitions of a reachable function also under cl23 / cl23.1 / cl24), each compiled in a child process (unbound name in main / in defun under a strict dialect, duplicate defun, inline+defun of one name, direct and mutual inline recursion with the back edge in head and in argument position (cycles of 1, 2 and 3), cyclic assign incl. self-reference, duplicate assign binding) are rejected with an error naming the culprit, and each repaired twin compiles")
         }
         "repl" => {
             let cases: Vec<(Vec<&str>, &str)> = vec![
@@ -1703,17 +1887,31 @@ pub fn search(name: &str, seed: u64) -> Value {
                 ("(mod (X) (defun-inline F ((A (@ inner (B C)))) (list A inner B C)) (F X))", "((101 (102 103)))", "(101 (102 103) 102 103)"),
                 ("(mod (X) (defun-inline F ((@ whole (A (@ in2 (B (@ in3 (C D))))))) (list whole A in2 B in3 C D)) (F X))", "((101 (102 (103 104))))", "((101 (102 (103 104))) 101 (102 (103 104)) 102 (103 104) 103 104)"),
                 ("(mod (X Y) (defun-inline F (P (Q (@ Z (R S)))) (list P Q Z R S)) (F X Y))", "(5 (7 (8 9)))", "(5 7 (8 9) 8 9)"),
+                // a literal 1 (the same atom as q for the classic reader) in front of a parameter in an inline body (seed C03-e stopped substituting after it)
+                ("(mod (X Y) (defun-inline F (A B) (+ 1 (* A B))) (F X Y))", "(7 3)", "22"),
+                ("(mod (X) (defun-inline inc (N) (+ 1 N)) (inc (inc X)))", "(7)", "9"),
+                ("(mod (X Y) (defun-inline F (A B) (if A 1 B)) (F X Y))", "(0 3)", "3"),
+                ("(mod (X Y) (defun-inline F ((A B)) (- 1 A B)) (F (list X Y)))", "(7 3)", "-9"),
+                ("(mod (X Y) (defun-inline F (A B) (list A 1 B)) (F X Y))", "(7 3)", "(7 1 3)"),
                 // a destructured inline argument more than 32 steps deep (seed C03-d narrowed the path arithmetic to u32)
                 ("(mod (X) (defun-inline F ((P0 P1 P2 P3 P4 P5 P6 P7 P8 P9 P10 P11 P12 P13 P14 P15 P16 P17 P18 P19 P20 P21 P22 P23 P24 P25 P26 P27 P28 P29 P30 P31 P32 P33 P34 P35)) (list P0 P31 P32 P35)) (F X))", "((1000 1001 1002 1003 1004 1005 1006 1007 1008 1009 1010 1011 1012 1013 1014 1015 1016 1017 1018 1019 1020 1021 1022 1023 1024 1025 1026 1027 1028 1029 1030 1031 1032 1033 1034 1035))", "(1000 1031 1032 1035)"),
                 ("(mod (X) (defun F ((P0 P1 P2 P3 P4 P5 P6 P7 P8 P9 P10 P11 P12 P13 P14 P15 P16 P17 P18 P19 P20 P21 P22 P23 P24 P25 P26 P27 P28 P29 P30 P31 P32 P33 P34 P35)) (list P0 P31 P32 P35)) (F X))", "((1000 1001 1002 1003 1004 1005 1006 1007 1008 1009 1010 1011 1012 1013 1014 1015 1016 1017 1018 1019 1020 1021 1022 1023 1024 1025 1026 1027 1028 1029 1030 1031 1032 1033 1034 1035))", "(1000 1031 1032 1035)"),
             ];
-            for (b, at, ex) in cases.iter() {
-                if let Some(mut v) = chk_meaning(b, None, at, ex) { v["input"] = json!({"program": b, "dialect": "classic", "args": at}); return v; }
+            // classic-compiler defects on record (F48, F49, F51): reported as known findings, skipped here by their recorded inputs
+            let on_record: Vec<(&str, &str, &str)> = vec![
+                ("(mod (X) (defun _helper (A) (+ A 1)) (_helper X))", "(7)", "8"),
+                ("(mod (X) (defun-inline F (A) (c (q . A) A)) (F X))", "(7)", "(65 . 7)"),
+                ("(mod (A B) (defun-inline F (X . Y) (c X Y)) (F A B))", "(7 8)", "(7 8)"),
+            ];
+            for (b, at, ex) in on_record.iter().chain(cases.iter()) {
+                let inp = json!({"program": b, "dialect": "classic", "args": at, "expected": ex});
+                if skipped(&inp) { continue; }
+                if let Some(mut v) = chk_meaning(b, None, at, ex) { v["input"] = inp; return v; }
                 let (b2, a2, e2) = (b.to_string(), at.to_string(), ex.to_string());
                 let r = catch_unwind(move || { let got = compile_and_run(&b2, true, &a2); let mut a = clvmr::Allocator::new(); let want = chialisp::classic::clvm_tools::binutils::assemble(&mut a, &e2).ok().and_then(|n| clvmr::serde::node_to_bytes(&a, n).ok()); (got, want) });
                 match r { Ok((Ok(g), w)) if g == w => {}, Ok((g, w)) => return hit(json!({"program": b, "dialect": "classic -O", "args": at}), format!("{} ({:?})", ex, w), format!("{:?}", g), "classic compile with optimisation + clvmr run"), Err(_) => return hit(json!({"program": b}), "no panic".into(), "panic".into(), "classic compile panicked") }
             }
-            nf("18 programs (incl. nested destructuring in inline parameters, captures below captures, a 36-element destructured argument, a capture name repeated inside its pattern) compiled by the classic compiler (plain and optimised) return the hand-computed values (which the cl21 build also returns, see source_meaning)")
+            nf("23 programs (incl. a literal 1 in front of a parameter in inline bodies, nested destructuring in inline parameters, captures below captures, a 36-element destructured argument, a capture name repeated inside its pattern) compiled by the classic compiler (plain and optimised) return the hand-computed values (which the cl21 build also returns, see source_meaning)")
         }
         "source_meaning" | "create_let_env_expression" | "cons_bodyform" | "create_name_lookup_" | "finalize_env_" => {
             let mut n = 0;
@@ -1765,11 +1963,20 @@ pub fn search(name: &str, seed: u64) -> Value {
                 ("(mod (X) (defun g (X) (+ 1 (assign y (* X 2) z (* y 3) (+ z (* y 3))))) (g X))", vec!["(5)"]),
                 ("(mod (X) (defun g (X) (list (assign y (* X 2) z (* y 3) (+ z (* y 3))) (assign y (+ X 2) z (* y 3) (+ z (* y 3))))) (g X))", vec!["(5)"]),
                 ("(mod (X) (defun g (X) (if X (assign y (* X 2) (assign z (* y 3) w (+ z (* y 3)) (+ w (* y 3) (* X 7) (* X 7)))) (* X 7))) (g X))", vec!["(5)", "(0)"]),
+                // a pair-valued if that is both a binding and the body of an assign whose other binding is a constant (finding F42, reduced from a generated program)
+                ("(mod (X) (defun f (P) (assign a 1 b (if (= 1 a) (c P 5) (c 5 P)) (if (= 1 a) (c P 5) (c 5 P)))) (f X))", vec!["(5)"]),
                 // two lambdas with a shared capture in one function
                 ("(mod (X) (defun g (X) (c (a (lambda ((& X) Z) (+ 1 (* Z Z X))) (list 3)) (a (lambda ((& X) Z) (+ 2 (* Z Z X))) (list 4)))) (g X))", vec!["(5)"]),
             ];
             for (b, argss) in progs.iter() { for at in argss { if skipped(&json!({"program": b, "args": at})) { continue; } if let Some(v) = chk_opt_levels(b, at) { return v; } } }
-            nf("30 programs (incl. constant calls inside helpers, calls repeated under guards that do not cover each other at two depths, repeated expressions inside nested assign forms, lambdas sharing a capture, a zero-byte constant condition, apply of a doubly quoted value, boolean casts (not (not x)) used as values, quoted data containing (1), repeated expressions under sibling and nested guards that raise when hoisted, let* chains) x argument sets: cl21/cl22/cl23 with -O off and on all agree on the returned value")
+            let n_gen = if thorough() { 150 } else { 10 };
+            // a fixed stream: the programs are the same on every run, so the recorded inputs of an open finding keep matching
+            let mut g = Gen::new(78);
+            for _ in 0..n_gen {
+                let prog = g.program();
+                for at in ["(3 5 7)", "(0 1 -2)"] { if skipped(&json!({"program": prog, "args": at, "generated": true})) { continue; } if let Some(mut v) = chk_generated_builds(&prog, at) { v["input"]["generated"] = json!(true); return v; } }
+            }
+            nf("31 programs (incl. constant calls inside helpers, calls repeated under guards that do not cover each other at two depths, repeated expressions inside nested assign forms, lambdas sharing a capture, a zero-byte constant condition, apply of a doubly quoted value, boolean casts (not (not x)) used as values, quoted data containing (1), repeated expressions under sibling and nested guards that raise when hoisted, let* chains) x argument sets: cl21/cl22/cl23 with -O off and on all agree on the returned value; 10 (thorough: 150) generated programs (seeded; 1-3 functions, plain and destructured parameters, let / let* / assign, if, arithmetic, comparisons, pairs, repeated subexpressions) x 2 argument sets: cl21, cl21 -O, strict-cl21, cl23, cl23.1, cl24 all compile and agree")
         }
         "bigint_from_bytes" | "bigint_to_bytes_clvm" | "bigint_to_bytes_unsigned" => {
             for len in 0..14usize { for pat in 0..6u8 { for signed in [false, true] {
@@ -1829,9 +2036,22 @@ pub fn search(name: &str, seed: u64) -> Value {
                         if let Some(v) = chk_entry_points_inc(&src, true, &incs) { let _ = std::fs::remove_dir_all(&base); return v; }
                     }
                 }
+                // the program as a file in a directory of its own that also holds a kk.clib (seed C11-d put that directory in front
+                // of the library's search path only): both ways must take kk.clib from the search path, or both fail when it is not there
+                let dp = base.join("proj");
+                if std::fs::create_dir_all(&dp).is_ok() {
+                    let _ = std::fs::write(dp.join("kk.clib"), "((defconstant KK 3333))");
+                    for d in ["*standard-cl-21*", "*standard-cl-23*"] {
+                        let file = dp.join("prog.clsp");
+                        let _ = std::fs::write(&file, format!("(mod (X) (include {}) (include kk.clib) (+ X KK))", d));
+                        for incs in [vec![sa.clone()], vec![sb.clone(), sa.clone()], vec![]] {
+                            if let Some(v) = chk_entry_points_file(&file.to_string_lossy(), &incs) { let _ = std::fs::remove_dir_all(&base); return v; }
+                        }
+                    }
+                }
                 let _ = std::fs::remove_dir_all(&base);
             }
-            nf("library entry and tool path emit identical bytes for 9 programs (incl. let* chains and quoted apply, which the classic post-optimiser rewrites, and zero-byte / zero-padded constants, which depend on the integer-conversion mode) x cl21/cl22/cl23 x optimize on/off, and for 4 search-path lists (incl. a repeated directory) x cl21/cl23")
+            nf("library entry and tool path emit identical bytes for 9 programs (incl. let* chains and quoted apply, which the classic post-optimiser rewrites, and zero-byte / zero-padded constants, which depend on the integer-conversion mode) x cl21/cl22/cl23 x optimize on/off, and for 4 search-path lists (incl. a repeated directory) x cl21/cl23; a program given as a file next to a same-named include file resolves it through the search path alone in both (3 search paths x cl21/cl23)")
         }
         "include_files" | "process_include" | "process_pp_form" | "process_embed" => {
             let mut n = 0;
@@ -1875,6 +2095,16 @@ pub fn search(name: &str, seed: u64) -> Value {
                     let t: Vec<String> = toks[..i].to_vec();
                     for m in [d, u, w, dot, t] { n += 1; if let Some(v) = chk_compile_no_panic(&join(&m)) { return v; } }
                 }
+            }
+            // ill-formed programs that must end in an error, not in a dead process: macros that expand to themselves (finding F46)
+            for srcx in ["(mod (X) (include *standard-cl-23*) (defmac M (A) (M A)) (M X))", "(mod (X) (include *strict-cl-21*) (defmac M (A) (N A)) (defmac N (A) (M A)) (M X))", "(mod (X) (include *standard-cl-21*) (defmacro M (A) (qq (M (unquote A)))) (M X))", "(mod (X) (include *standard-cl-21*) (defmacro M (X) (qq (F (unquote X)))) (defun-inline F (X) (M X)) (F X))"] {
+                if skipped(&json!({"program": srcx})) { continue; }
+                if let Err(e) = compile_in_child(srcx) { if e.starts_with("<killed") { return hit(json!({"program": srcx}), "a result or an error".into(), e, "compile_clvm_text_maybe_opt in a child process"); } }
+            }
+            // an inline function that calls itself, under the classic compiler (finding F50: it never returns); a few milliseconds' work, so 15 s are ample
+            for srcx in ["(mod (X) (defun-inline F (A) (if A (F (- A 1)) 0)) (F X))"] {
+                if skipped(&json!({"program": srcx, "limit": 15})) { continue; }
+                if let Err(e) = compile_in_child_limit(srcx, 15) { if e.starts_with("<killed") { return hit(json!({"program": srcx, "limit": 15}), "a result or an error".into(), e, "compile_clvm_text_maybe_opt in a child process"); } }
             }
             // valid programs that once sent the compiler into unbounded recursion (F31): compiled in a child process, which must return
             for d in ["*standard-cl-23*", "*standard-cl-24*"] { for b in ["(mod (X) (defun f (A B) (+ A B 1)) (defun g (X) (+ X (f 3 4))) (g X))", "(mod (X) (defun f (A) (* A 2)) (defun h (X) (f 9)) (defun g (X) (+ X (f 3) (h 1))) (g X))"] {
@@ -1960,9 +2190,13 @@ pub fn search(name: &str, seed: u64) -> Value {
         }
         "path_optimizer" | "sub_args" | "path_from_args" | "optimize_sexp" | "path_number_from_u8" | "new" | "add" | "first" | "rest" | "as_path" | "seems_constant" => {
             for p in optimizer_programs() { for e in 0..6u8 {
+                if skipped(&json!({"program": p, "env": e})) { continue; }
                 if let Some(mut v) = optimizer_vs_consensus(&p, e) { v["input"] = json!({"program": p, "env": e}); return v; }
             } }
-            nf("optimize_sexp preserves the value of the enumerated programs (path atoms of 1-4 and 7-9 bytes) x 6 environments (incl. a full tree of depth 17 and combs of depth 80)")
+            for t in ["(5 -1)", "(6 -128)", "(5 (6 -1))", "(5 (5 -2))", "(6 0)", "(5 255)", "(6 (5 2))", "(5 (6 (6 (5 3))))", "(5 (5 (5 (5 (5 (5 (5 (5 1))))))))", "(6 -32768)"] { for e in 0..3u8 {
+                if let Some(v) = brief_vs_consensus(t, e) { return v; }
+            } }
+            nf("optimize_sexp preserves the value of the enumerated programs (path atoms of 1-4 and 7-9 bytes; (a (q . (c P1 P2)) N) for all P1, P2 in 2..7 and N in {2, 3, 5, 6, 7}) x 6 environments (incl. a full tree of depth 17 and combs of depth 80); brief_path_selection (cl23+) keeps the value of 10 f / r chains over positive, zero and negative numbers x 3 environments")
         }
         "choose_path" | "flatten_signed_int" | "truthy" | "atom_value" | "run_step" | "combine" | "eval_args" | "generate_argument_refs" | "unit:stepper" | "unit:clvmleaves" => {
             // the sweep is spread over worker threads (each program builds its own allocator); the first hit in enumeration order is reported
@@ -2000,13 +2234,17 @@ pub fn search(name: &str, seed: u64) -> Value {
 
 pub fn run_input(name: &str, input: &Value) -> Value {
     match name {
+        "token_mutations" => { let srcx = input["program"].as_str().unwrap_or(""); match compile_in_child_limit(srcx, input["limit"].as_u64().unwrap_or(120)) { Err(e) if e.starts_with("<killed") => hit(json!({"program": srcx}), "a result or an error".into(), e, "compile_clvm_text_maybe_opt in a child process"), _ => nf("input does not violate the contract on this tree") } }
         "determinism" => chk_determinism_one(input["source"].as_str().unwrap_or("")).unwrap_or_else(|| nf("input does not violate the contract on this tree")),
+        "classic_meaning" => chk_meaning(input["program"].as_str().unwrap_or(""), None, input["args"].as_str().unwrap_or("()"), input["expected"].as_str().unwrap_or("()")).unwrap_or_else(|| nf("input does not violate the contract on this tree")),
         "source_meaning" => chk_meaning(input["program"].as_str().unwrap_or(""), input["dialect"].as_str(), input["args"].as_str().unwrap_or("()"), input["expected"].as_str().unwrap_or("()")).unwrap_or_else(|| nf("input does not violate the contract on this tree")),
+        "opt_levels" if input["generated"].as_bool() == Some(true) => chk_generated_builds(input["program"].as_str().unwrap_or(""), input["args"].as_str().unwrap_or("()")).unwrap_or_else(|| nf("input does not violate the contract on this tree")),
         "opt_levels" => chk_opt_levels(input["program"].as_str().unwrap_or(""), input["args"].as_str().unwrap_or("()")).unwrap_or_else(|| nf("input does not violate the contract on this tree")),
         "modern_print" => (if let Some(p) = input["program"].as_str() { chk_modern_print_program(p) } else { chk_modern_print(&bytes(&input["clvm_bytes"])) }).unwrap_or_else(|| nf("input does not violate the contract on this tree")),
         "disassemble" | "ir_for_atom" | "consume_quoted" | "pybytes_repr" => chk_disasm(&bytes(&input["clvm_bytes"])).unwrap_or_else(|| nf("input does not violate the contract on this tree")),
         "advance" | "srcloc" => chk_advance(input["line"].as_u64().unwrap_or(1) as usize, input["col"].as_u64().unwrap_or(1) as usize, input["ch"].as_u64().unwrap_or(0) as u8).unwrap_or_else(|| nf("input does not violate the contract on this tree")),
         "convert_from_clvm_rs" | "convert_to_clvm_rs" | "convert" | "sha256tree" => chk_convert(&bytes(&input["clvm_bytes"])).unwrap_or_else(|| nf("input does not violate the contract on this tree")),
+        "path_optimizer" if input["modern_clvm"].is_string() => brief_vs_consensus(input["modern_clvm"].as_str().unwrap_or(""), input["env"].as_u64().unwrap_or(0) as u8).unwrap_or_else(|| nf("input does not violate the contract on this tree")),
         "path_optimizer" | "sub_args" | "path_from_args" | "optimize_sexp" | "path_number_from_u8" | "new" | "add" | "first" | "rest" | "as_path" | "seems_constant" =>
             optimizer_vs_consensus(&bytes(&input["program"]), input["env"].as_u64().unwrap_or(0) as u8).unwrap_or_else(|| nf("input does not violate the contract on this tree")),
         "choose_path" | "flatten_signed_int" | "truthy" | "atom_value" | "run_step" | "combine" | "eval_args" | "generate_argument_refs" =>
